@@ -1,6 +1,7 @@
 package zzverif
 
 import (
+	"github.com/grafana/cog/internal/tools"
 	"encoding/json"
 	"fmt"
 	"os"
@@ -133,7 +134,10 @@ func (c *nfChecker) enumNames(objName string, t ast.Type, where string) {
 	for _, m := range t.Enum.Values {
 		switch c.lang {
 		case "go":
-			if !strings.HasPrefix(squash(m.Name), squash(objName)) {
+			// "VariableRefresh enum(Never) becomes VariableRefreshNever": the prefix is the
+			// enum's name as Go spells it, so that the member is an exported identifier
+			// of its own (the jenny declares and uses members under that name)
+			if !strings.HasPrefix(m.Name, tools.UpperCamelCase(objName)) {
 				c.add("go-enum-member-prefixed", where+"#"+m.Name, t)
 			}
 		case "typescript", "python":
